@@ -61,6 +61,11 @@ class C14(vlib.Check):
             yield 'b64_dec ' + hx(be)
             yield 'hex_dec_buf %s %d' % (hx(he), len(a))
             yield 'b64_dec_buf %s %d' % (hx(be), len(a))
+            if len(a) <= 20 or len(a) in (47, 48, 49):
+                # the caller-buffer round trip with a roomier / "unbounded" stated size
+                for o in (len(a) + 1, 2 ** 31, 2 ** 63 - 1, 2 ** 63, 2 ** 64 - 1):
+                    yield 'hex_dec_buf %s %d' % (hx(he), o)
+                    yield 'b64_dec_buf %s %d' % (hx(be), o)
 
     def nontrivial(self, case, impl):
         t = case.split()
